@@ -198,6 +198,25 @@ fn main() {
       let r = run_batch(engine.as_ref(), &cfg);
       std::process::exit(r.exit_code);
     }
+    "probe" => {
+      // Child side of a crash probe: idsim probe <engine> <property> <name>. Exit 0 = the code under test returned
+      // (outcome on stdout), 101 = panic, 3 = harness problem; a stack overflow ends the process by a signal.
+      if args.len() < 5 {
+        usage();
+      }
+      let Some(engine) = engine_by_name(&args[2]) else { usage() };
+      crate::core::ctx::begin(crate::core::tape::Tape::record(DEFAULT_SEED), false);
+      let outcome = engine.run_crash_probe(&args[3], &args[4]);
+      let _ = crate::core::ctx::end();
+      println!("{outcome}");
+      if outcome.starts_with("panic") {
+        std::process::exit(101);
+      }
+      if outcome.starts_with("harness") || outcome == "no such probe" {
+        std::process::exit(3);
+      }
+      std::process::exit(0);
+    }
     "replay" => {
       if args.len() < 3 {
         usage();
